@@ -108,22 +108,30 @@ Theorem C03_flat_trace :
 Proof. intros. now apply do_run_trace. Qed.
 Print Assumptions C03_flat_trace.
 
-(* the one-pass specification behind it, from any state: if the root deque holds
-   the entries q (suspended quiet leaves at their pcs, pairwise distinct: Good),
-   one recur pass does exactly what ref_pass says - the due doers are sent once
-   each in deque order, the new deque is the list of updated entries *)
+(* the one-pass specification behind it, from any state and for ANY scheduler sid
+   (the root Doist or a DoDoer at any depth): if sid's deque holds the entries q
+   (suspended quiet leaves at their pcs, pairwise distinct: Good), one recur pass
+   does exactly what ref_pass says - the due doers are sent once each in deque
+   order, not-due entries stay unchanged, the new deque is the list of updated
+   entries - with the asap tock  stock tk D sid = the root tock for the Doist, but
+   |DoDoer.tock| for a DoDoer.  The latter is open finding D35 stated positively:
+   inside a tock-0 DoDoer `yield 0/None` makes the doer due at tyme + 0, and a later
+   cumulative `due + t` starts from there (see C03_nested_asap_refuted). *)
 Theorem C03_pass_refines :
-  forall (T : Type) (TT : Time T) (tk : T) (D : amap (fdef T)) (f : nat) (s : st T) (q : list (@rdoer T)) s' g,
-    recur_pass tk f s 0%N = (s', g) -> g <> GFuel ->
-    deeds (get_sched s 0%N) = map deed_of q -> Good D s q ->
+  forall (T : Type) (TT : Time T) (tk : T) (D : amap (fdef T)) (sid : id) (f : nat) (s : st T)
+         (q : list (@rdoer T)) s' g,
+    recur_pass tk f s sid = (s', g) -> g <> GFuel ->
+    deeds (get_sched s sid) = map deed_of q -> Good D s q ->
+    let tock := stock tk D sid in
     g = GReturn /\
-    deeds (get_sched s' 0%N) = map deed_of (fst (ref_pass D (tyme s) tk q)) /\
-    Good D s' (fst (ref_pass D (tyme s) tk q)) /\
-    recs s' = rev (snd (ref_pass D (tyme s) tk q)) ++ recs s /\
+    deeds (get_sched s' sid) = map deed_of (fst (ref_pass D (tyme s) tock q)) /\
+    Good D s' (fst (ref_pass D (tyme s) tock q)) /\
+    recs s' = rev (snd (ref_pass D (tyme s) tock q)) ++ recs s /\
     trace s' = pass_evs D (tyme s) q ++ trace s /\ tyme s' = tyme s.
 Proof.
-  intros T TT tk D f s q s' g E NF Dq Gd. pose proof (pass_ref tk D f s q s' g E NF Dq Gd) as P.
-  destruct (ref_pass D (tyme s) tk q) as [q' o]. cbn [fst snd].
+  intros T TT tk D sid f s q s' g E NF Dq Gd. cbv zeta.
+  pose proof (pass_ref_at tk D sid f s q s' g E NF Dq Gd) as P.
+  destruct (ref_pass D (tyme s) (stock tk D sid) q) as [q' o]. cbn [fst snd].
   destruct P as (P1 & P2 & P3 & P4 & P5 & _ & P7). repeat (split; try assumption).
 Qed.
 Print Assumptions C03_pass_refines.
@@ -188,6 +196,32 @@ Theorem C03_no_drift_Z :
 Proof. intros D tock start ids now' q' i t n Nz C R d I Ei Hn. eapply ref_no_drift; eauto. Qed.
 Print Assumptions C03_no_drift_Z.
 
+(* The same on the run itself (exact time, static flat program): walking through
+   the per-cycle blocks of recur steps with now = the cycle's tyme and c = the number
+   of earlier runs of doer i, as long as i's next step is one of its constant-tock
+   steps (c+1 <= n):   i runs in this cycle  <->  start + c*t <= now.
+   So its (c+1)-th run happens in the first cycle (after the previous run) whose tyme
+   has reached start + c*t, however late the earlier runs were: no drift.
+   (drift_ok, Proofs/SchedCycleRef.v.) *)
+Theorem C03_no_drift_run :
+  forall (cycles fuel : nat) (p : prog Z) (i : id) (t : Z) (n : nat),
+    flat_static p = true -> oof (do_run cycles fuel p) = false ->
+    In i (p_doers p) -> (exists t0, out_at (p_defs p) i 0 = OYield t0) ->
+    t <> 0%Z -> (forall pc, (1 <= pc < n)%nat -> out_at (p_defs p) i pc = OYield (Some t)) ->
+    exists blocks,
+      recur_steps (do_run cycles fuel p) = concat blocks /\
+      drift_ok (p_tock p) (p_tyme p) i t n (p_tyme p) 0 blocks.
+Proof.
+  intros cycles fuel p i t n F O I E0 Nz C.
+  destruct (do_run_ref cycles fuel p F O) as (res & dn & R & S & _).
+  unfold ref_run in R.
+  assert (Jq : J (p_tyme p) i t n (ref_enter (p_defs p) (p_tyme p) (p_doers p)) 0).
+  { apply J_enter; [apply (flat_static_inv p F)|exact I|exact E0]. }
+  destruct (ref_cycles_drift (p_defs p) (p_tock p) (p_tyme p) i t n Nz C _ _ _ _ _ _ _ _ _ 0%nat R Jq) as (news & -> & Dr).
+  exists news. split; [exact S|exact Dr].
+Qed.
+Print Assumptions C03_no_drift_run.
+
 (* asap: a doer that yields 0/None in the pass at tyme now gets due = now + tock,
    the tyme of the next cycle, at which it is due again (tleb x x, exact time) *)
 Theorem C03_asap_next :
@@ -223,6 +257,21 @@ Theorem C03_nested_asap_refuted :
 Proof. vm_compute. repeat split. Qed.
 Print Assumptions C03_nested_asap_refuted.
 
+(* the hypotheses of C03_pass_refines inside a DoDoer: the state of d35_nested after
+   enter; scheduler 3 (the tock-0 DoDoer) holds leaves 1 and 2, both due at 105 *)
+Example C03_example_nested_pass :
+  let s := entered 100 d35_nested in
+  let q := [{| r_id := 1%N; r_due := 105%Z; r_pc := 1 |}; {| r_id := 2%N; r_due := 105%Z; r_pc := 1 |}] in
+  deeds (get_sched s 3%N) = map deed_of q /\ Good (p_defs d35_nested) s q /\
+  snd (recur_pass 3%Z 50 s 3%N) = GReturn /\ stock 3%Z (p_defs d35_nested) 3%N = 0%Z /\
+  fst (ref_pass (p_defs d35_nested) 105%Z 0%Z q) = [{| r_id := 1%N; r_due := 105%Z; r_pc := 2 |}].
+Proof.
+  cbv zeta. split; [vm_compute; reflexivity|]. split.
+  - split; [reflexivity|]. split; [repeat constructor; cbn; intuition discriminate|].
+    intros d [<-|[<-|[]]]; vm_compute; repeat split; discriminate.
+  - vm_compute. repeat split.
+Qed.
+
 (* ------------------------------------------------------------------ *)
 (* Non-vacuity of the hypotheses *)
 Definition ex_flat : prog Z :=
@@ -248,8 +297,12 @@ Proof. vm_compute. repeat split. Qed.
 
 (* doer 1 asks for t = 3 with scheduler tock 2: due 10, 13, 16, 19 -> run at 10, 14, 16, 20 (no drift) *)
 Example C03_example_no_drift :
-  forall pc, (1 <= pc < 4)%nat -> out_at (p_defs ex_flat) 1%N pc = OYield (Some 3%Z).
-Proof. intros pc Hpc. destruct pc as [|[|[|[|pc]]]]; try lia; reflexivity. Qed.
+  (forall pc, (1 <= pc < 4)%nat -> out_at (p_defs ex_flat) 1%N pc = OYield (Some 3%Z)) /\
+  In 1%N (p_doers ex_flat) /\ (exists t0, out_at (p_defs ex_flat) 1%N 0 = OYield t0).
+Proof.
+  split; [intros pc Hpc; destruct pc as [|[|[|[|pc]]]]; try lia; reflexivity|].
+  split; [left; reflexivity|]. eexists. reflexivity.
+Qed.
 
 (* a nested program with a raise in the middle of a pass, for the unconditional theorems *)
 Definition ex_any : prog Z :=
